@@ -234,6 +234,15 @@ def run_session(ssh, max_obj, unnamed):
     snames = {v: (f"s{v}" if (not S.children[v] or not unnamed) else "") for v in range(S.n)}
     st = Tree(S.newick(snames), format=1)
     snode = A.nodes_by_index(S, st)
+    # an earlier structure has indexed the same node objects, on the mirrored tree (every node object then sat at another
+    # place of the tour); the session's own structure is built afterwards on the tree as the model has it
+    for n in st.traverse():
+        if n.children:
+            n.children.reverse()
+    earlier = LowestCommonAncestor(st)   # noqa: F841
+    for n in st.traverse():
+        if n.children:
+            n.children.reverse()
     lca = LowestCommonAncestor(st)
     n_eval = nt = 0
     viols = []
